@@ -86,4 +86,6 @@ def behaviours(g, limit=None, all_paths_below=0):
 def to_json(g, b, bid):
     prog = g.prog[b["init"]]
     steps = [g.lbl[n] for n in b["nodes"][1:]]
-    return {"id": bid, "prog": prog, "steps": steps}
+    last = b["nodes"][-1]
+    end = "done" if last in g.done else ("deadlock" if not g.succ.get(last) else "cut")
+    return {"id": bid, "prog": prog, "steps": steps, "end": end}
